@@ -241,6 +241,21 @@ func cmdCheck(args []string) {
 			st := o.Result.Status
 			solverMs += o.Result.Millis
 			if o.Cover {
+				if st == "unsat" && strings.Contains(r.Key, "#") && strings.Contains(o.Name, "/cover[return") {
+					// a contract variant restricts the paths by its precondition: single
+					// return sites may be unreachable under it; it is vacuous only if no
+					// return site is reachable at all
+					someLive := false
+					for _, o2 := range r.VC.obls {
+						if o2.Cover && strings.Contains(o2.Name, "/cover[return") && o2.Result.Status != "unsat" {
+							someLive = true
+						}
+					}
+					if someLive {
+						trusted["note:"+o.Name+" is unreachable under the variant's precondition"] = true
+						continue
+					}
+				}
 				if st == "unsat" {
 					vacuous++
 					file := filepath.Join(rdir, sanitizeFile(o.Name)+".vacuous.txt")
